@@ -139,29 +139,35 @@ type listener struct {
 
 func (l *listener) Accept() (transport.Pipe, error) {
 
-	if l.l == nil {
+	l.lock.Lock()
+	nl := l.l
+	l.lock.Unlock()
+	if nl == nil {
 		return nil, mangos.ErrClosed
 	}
 	return l.handshaker.Wait()
 }
 
 func (l *listener) Listen() (err error) {
+	// The lock is held from the closed check until the new listener has
+	// been recorded: Close either comes first, and we refuse, or finds
+	// the listener it has to close.
+	l.lock.Lock()
+	defer l.lock.Unlock()
 	select {
 	case <-l.closeq:
 		return mangos.ErrClosed
 	default:
 	}
-	l.lock.Lock()
-	lc := l.lc // SetOption may change the keep-alive setting meanwhile
-	l.lock.Unlock()
-	l.l, err = lc.Listen(context.Background(), "tcp", l.addr)
+	nl, err := l.lc.Listen(context.Background(), "tcp", l.addr)
 	if err != nil {
-		return
+		return err
 	}
-	l.bound = l.l.Addr()
+	l.l = nl
+	l.bound = nl.Addr()
 	go func() {
 		for {
-			conn, err := l.l.Accept()
+			conn, err := nl.Accept()
 			if err != nil {
 				select {
 				case <-l.closeq:
@@ -182,11 +188,14 @@ func (l *listener) Listen() (err error) {
 			l.handshaker.Start(p)
 		}
 	}()
-	return
+	return nil
 }
 
 func (l *listener) Address() string {
-	if b := l.bound; b != nil {
+	l.lock.Lock()
+	b := l.bound
+	l.lock.Unlock()
+	if b != nil {
 		return "tcp://" + b.String()
 	}
 	return "tcp://" + l.addr
@@ -195,8 +204,11 @@ func (l *listener) Address() string {
 func (l *listener) Close() error {
 	l.once.Do(func() {
 		close(l.closeq)
-		if l.l != nil {
-			_ = l.l.Close()
+		l.lock.Lock()
+		nl := l.l
+		l.lock.Unlock()
+		if nl != nil {
+			_ = nl.Close()
 		}
 		l.handshaker.Close()
 	})
